@@ -151,12 +151,16 @@ Stats explore(Sys& sys, const Options& opt, const std::set<std::string>& skip) {
         std::vector<uint32_t> ops = sys.ops(*base);
         std::unique_ptr<typename Sys::State> cur = std::move(base);
         bool cur_dirty = false;
+        std::vector<uint32_t> cur_hist = nd.hist;  // history of the state held in `cur`
         for (uint32_t op : ops) {
             std::vector<uint32_t> h2 = nd.hist;
             h2.push_back(op);
             std::string rp = replay_str(sys, h2);
             if (skip.count(rp)) continue;  // known crashing transition: terminal
             if (cur_dirty) {
+                vh::at("destroy", replay_str(sys, cur_hist));
+                cur.reset();
+                cur_hist = nd.hist;
                 vh::at("replay", replay_str(sys, nd.hist));
                 cur = build(sys, nd.hist, nd.hist.size());
                 S.replays++;
@@ -170,6 +174,7 @@ Stats explore(Sys& sys, const Options& opt, const std::set<std::string>& skip) {
             vh::at(sig_label(sys.op_name(op)).c_str(), rp);
             sys.apply(*cur, op);
             cur_dirty = true;
+            cur_hist = h2;
             S.transitions++;
             bool failed = vh::shm()->stat_val[vh::stat_slot("failing_cases", false)] != fails_before;
             if (failed) continue;  // violating state is terminal
@@ -193,7 +198,7 @@ Stats explore(Sys& sys, const Options& opt, const std::set<std::string>& skip) {
             }
         }
         if (capped) break;
-        vh::at("destroy", replay_str(sys, nd.hist));
+        vh::at("destroy", replay_str(sys, cur_hist));
         cur.reset();  // destruction of the reached state runs under the ledger oracles too
     }
     S.closed = !capped && opt.max_depth < 0;
